@@ -51,20 +51,27 @@ def main():
         os.rename(f"{wt}/SEED", f"{wt}/_SEED")
     meta = {"property": agent_meta.get("property", pid), "seed": os.path.basename(dst), "agent": agent_meta, "needs": agent_meta.get("needs", ""), "summary": agent_meta.get("summary", "")}
     ver = {}
-    sh("git checkout -- . && rm -f zz_seed_demo_test.go", wt)
+    sh("git checkout -- . && rm -f zz_seed_demo_test.go */zz_seed_demo_test.go", wt)
     head = subprocess.run(["git", "-C", "/repo", "rev-parse", "HEAD"], capture_output=True, text=True).stdout.strip()
     sh(f"git checkout -q --detach {head}", wt)
     ver["repo_head"] = head[:10]
     demo = os.path.join(dst, "demo_test.go")
     patch = os.path.join(dst, "patch.diff")
-    run_demo = "go test -vet=off -count=5 -timeout 300s -run 'TestSeed' ."
+    # the demonstration goes where its package clause says (root package or decor/)
+    first = open(os.path.join(dst, "demo_test.go")).read(4000)
+    sub = "."
+    for cand in ("decor", "cwriter", "internal"):
+        if f"\npackage {cand}\n" in first or f"\npackage {cand}_test\n" in first:
+            sub = cand
+    demo_dst = f"{wt}/{sub}/zz_seed_demo_test.go" if sub != "." else f"{wt}/zz_seed_demo_test.go"
+    run_demo = f"go test -vet=off -count=5 -timeout 300s -run 'TestSeed' ./{sub}"
     if "--race" in a:
-        run_demo = "go test -race -vet=off -count=3 -timeout 600s -run 'TestSeed' ."
+        run_demo = f"go test -race -vet=off -count=3 -timeout 600s -run 'TestSeed' ./{sub}"
     # 1. clean + demo
-    shutil.copy(demo, f"{wt}/zz_seed_demo_test.go")
+    shutil.copy(demo, demo_dst)
     rc, out = sh(run_demo, wt)
     ver["demo_on_clean_tree"] = "pass" if rc == 0 else f"FAIL rc={rc}: {out[-600:]}"
-    os.remove(f"{wt}/zz_seed_demo_test.go")
+    os.remove(demo_dst)
     # 2. patch + suite
     rc, out = sh(f"git apply {patch}", wt)
     if rc != 0:
@@ -72,11 +79,11 @@ def main():
     else:
         rc, out = sh("go build ./... && go test -vet=off -count=1 ./...", wt)
         ver["suite_with_patch"] = "pass" if rc == 0 else f"FAIL rc={rc}: {out[-800:]}"
-        shutil.copy(demo, f"{wt}/zz_seed_demo_test.go")
+        shutil.copy(demo, demo_dst)
         rc, out = sh(run_demo, wt)
         ver["demo_with_patch"] = "fails (as required)" if rc != 0 else "PASSES (change not demonstrated)"
         ver["demo_with_patch_tail"] = out[-500:]
-    sh("git checkout -- . && rm -f zz_seed_demo_test.go", wt)
+    sh("git checkout -- . && rm -f zz_seed_demo_test.go */zz_seed_demo_test.go", wt)
     ver["cmds"] = ["git apply patch.diff; go build ./... && go test -vet=off -count=1 ./...", run_demo + " (with and without the patch)"]
     if os.path.exists(os.path.join(dst, "meta.json")):
         try:
